@@ -18,7 +18,7 @@ func init() {
 		ID:    "C04",
 		Title: "A size survives every marshal form and configuration",
 		Run:   runC04,
-		Explanation: "Writer/reader agreement over constants, each a necessary condition of the round trip. C04.forms: MarshalJSON as a decision table over the two package switches emits object / quoted text / bare number; the object is {\"<ObjectKeyValue>\":<Shorten value>,\"<ObjectKeyUnit>\":\"<Shorten unit>\"}; MarshalText selects bare bytes or Formatter(nil, s, 0) by DisableMarshalTextUnit; DefaultRule's initialiser enables the object and string forms; UnmarshalText masks the rule to RuleDisableUnit, UnmarshalJSON passes DefaultRule. " +
+		Explanation: "Writer/reader agreement over constants, each a necessary condition of the round trip. C04.forms: MarshalJSON as a decision table over the two package switches emits object / quoted text / bare number; the object is {\"<ObjectKeyValue>\":<Shorten value>,\"<ObjectKeyUnit>\":\"<Shorten unit>\"}; MarshalText selects bare bytes or Formatter(nil, s, 0) by DisableMarshalTextUnit; DefaultRule's initialiser enables the object and string forms; UnmarshalText masks the rule to RuleDisableUnit, UnmarshalJSON passes DefaultRule; the exported MarshalText is marshalText with its error wrapped; the string form quotes exactly marshalText's bytes (C04.quote text). C04.reader: the reader's side of the three JSON forms (rules of C12.gate, C08.object, C12.whole filed here as necessary conditions of the round trip). " +
 			"C04.exact: the reading side is exact near 2^64 — newSize as a decision table with the product checked through the high word of bits.Mul64 (C08's rules under this property), and the text path reads its digits with strconv.ParseUint(·, 10, 64) on every target (C08.text). C04.quote: the string form is exactly '\"' + text + '\"' (the shift-by-one copy idiom is checked piece by piece). " +
 			"C04.vocab: Shorten evaluated abstractly (as C13.shorten) returns (s >> 10k, k-th binary unit) and unitToValues maps that unit to 2^(10k), so value × multiplier rebuilds what Shorten split. " +
 			"C04.keys: the reader switches on the marshal key constants after strings.ToLower, and the constants are lower-case. " +
@@ -62,7 +62,7 @@ func runC04(e *Env) {
 	ruleC04Keys(e)
 	ruleC04Sep(e)
 	ruleLimitAccept(e, "C04.limit", "size")
-	e.S.Floor("C04.forms", 8)
+	e.S.Floor("C04.forms", 10)
 	e.S.Floor("C04.quote", 4)
 	e.S.Floor("C04.vocab", 15)
 	e.S.Floor("C04.keys", 4)
@@ -72,6 +72,17 @@ func runC04(e *Env) {
 	// … and those bytes are the digits of the shortened value, grouped in threes where asked, then the unit (C13.format)
 	ruleFormatSem(e, "C04.render")
 	e.S.Floor("C04.render", 10)
+	// "the marshalled text or JSON unmarshals under the default rule": the reader's side of the three JSON forms — the
+	// token kind selects the form, the string and number forms go through the text reader, the object's members are
+	// decoded as the writer emitted them (C12.gate, C08.object), and no tail of the input is dropped (C12.whole)
+	e.As(map[string]string{"C12.gate": "C04.reader", "C08.object": "C04.reader"}, func() {
+		ruleC12Gate(e)
+		ruleC08Object(e)
+	})
+	if dp := e.Fn("C04.reader", "size", "DefaultParser"); dp != nil {
+		e.FlowAs(map[string]string{"C12.whole": "C04.reader"}, func(c *flow.Ctx) { c.RuleWholeInput(dp, 0) })
+	}
+	e.S.Floor("C04.reader", 17)
 }
 
 // segs flattens an abstract byte-sequence value built by append / strconv.AppendUint into readable segments.
@@ -189,6 +200,31 @@ func ruleC04Forms(e *Env) {
 		mt.String(): func(ev *pred.Evaluator, args []pred.Val) (pred.Val, error) {
 			return pred.Tuple{pred.Term{Fn: "marshalText#0", Args: args}, pred.Term{Fn: "marshalText#1", Args: args}}, nil
 		}}
+	// the exported MarshalText (what encoding/json calls for map keys and what users call) is marshalText with its
+	// error wrapped
+	if MT := e.Method(rule, "size", "Size", "MarshalText"); MT != nil {
+		msite := flow.FnName(MT)
+		lvs, err := extractTree(e.P.SSA, MT, func() []pred.Val { return []pred.Val{pred.Sym{Name: "s"}} }, sums2, nil, errKeyOf, binDomain)
+		if err != nil {
+			e.S.Unk(rule, msite, "MarshalText", err.Error(), e.Pos(MT))
+		}
+		for _, lf := range lvs {
+			if lf.Err != nil {
+				e.S.Unk(rule, msite, "MarshalText", lf.Err.Error(), e.Pos(MT))
+				continue
+			}
+			got := lf.Out.Ret.String()
+			v, asked := lf.Assign["nil? marshalText#1(s)"]
+			switch {
+			case asked && len(lf.Assign) == 1 && v == 0 && got == "(marshalText#0(s), nil)":
+				e.S.Ok(rule, msite, "MarshalText ok", "returns the text of marshalText unchanged", e.Pos(MT))
+			case asked && len(lf.Assign) == 1 && v == 1 && strings.HasPrefix(got, "(nil, fmt.Errorf(") && strings.Contains(got, "marshalText#1(s)"):
+				e.S.Ok(rule, msite, "MarshalText error", "marshalText's error returned wrapped, with nil data", e.Pos(MT))
+			default:
+				e.S.Bad(rule, msite, "MarshalText {"+lf.String()+"}", "returns "+got+"; documented: the text of marshalText (bare bytes or Formatter output), its error wrapped", e.Pos(MT), "")
+			}
+		}
+	}
 	site := flow.FnName(mj)
 	fixed := func(a, b pred.Val) (int, bool, bool) {
 		if a.String() == "marshalText#1(s)" && b.String() == "nil" {
@@ -332,6 +368,20 @@ func ruleC04Quote(e *Env) {
 	}
 	lit, _ := flow.ConstString(app.Call.Args[1])
 	text := app.Call.Args[0]
+	// the bytes quoted are the text marshalling of the receiver, untouched
+	origin := false
+	if ex, ok := text.(*ssa.Extract); ok && ex.Index == 0 {
+		if call, ok := ex.Tuple.(*ssa.Call); ok && len(call.Call.Args) == 1 && flow.StripConv(call.Call.Args[0]) == ssa.Value(mj.Params[0]) {
+			if g := e.C.StaticCallee(&call.Call); g != nil && (flow.Origin(g) == e.P.Method("size", "Size", "marshalText") || flow.Origin(g) == e.P.Method("size", "Size", "MarshalText")) {
+				origin = true
+			}
+		}
+	}
+	if origin {
+		e.S.Ok(rule, site, "text", "the quoted bytes are the first result of the receiver's text marshalling, unmodified", e.posOf(app))
+	} else {
+		e.S.Bad(rule, site, "text", "the bytes put between the quotes are not the unmodified result of marshalText on the receiver", e.posOf(app), "")
+	}
 	if len(lit) != 2 {
 		e.S.Bad(rule, site, "grow", fmt.Sprintf("the buffer is grown by %d byte(s) (%q); the quoted form needs exactly two more (opening and closing quote)", len(lit), lit), e.posOf(app), "")
 	} else {
@@ -637,5 +687,13 @@ func runeLoopTable(e *Env, rule string, pn *ssa.Function) {
 	}
 	if badOther == "" {
 		e.S.Ok(rule, site, "other", "every other rune ends the number (the unit starts there)", e.Pos(pn))
+	}
+	switch n, bad, at := rl.CheckReturns(); {
+	case bad != "":
+		e.S.Bad(rule, site, "returns", bad, e.posOf(at), "")
+	case n == 0:
+		e.S.Unk(rule, site, "returns", "no return found", e.Pos(pn))
+	default:
+		e.S.Ok(rule, site, "returns", fmt.Sprintf("%d return(s): (accumulated digits, \"\") at the end of the input, (accumulated digits, input from the stopping rune on, trailing characters trimmed) otherwise", n), e.Pos(pn))
 	}
 }
